@@ -73,7 +73,7 @@ Definition ex_client : client :=
            CibaNone false false false false false false false 0 false.
 Definition ex_w : world := mkWorld ex_cfg [ex_client].
 Definition ex_bind : bind_in := mkBind None 0.
-Definition ex_treq : treq := mkTReq (mkCred 1 true) ex_bind "openid" 0 "" 0 PkEmpty 0 HgOk BaApprove [].
+Definition ex_treq : treq := mkTReq (mkCred 1 true) ex_bind "openid" 0 "" 0 PkEmpty 0 HgOk BaApprove [] AsNone.
 Definition plan_at (k : nat) (f : fault) : nat -> fault := plan_of [(k, f)].
 
 (* non-vacuity: a plan that hits and yields an error; a fault-free run that yields a token whose
@@ -233,7 +233,7 @@ Definition ex_sess : asession :=
   mkASession (mint 0 KSessId) 1 "alice" 0 0 0 (mint 0 KCode) "openid" 0 0 60%Z 0 ""
              (empty_params <| p_redirect := "https://c1.example/cb" |> <| p_resp_type := "code" |> <| p_scopes := "openid" |>) [].
 Definition ex_store_s : store := mkStore [] [ex_sess] [].
-Definition ex_code_req : treq := mkTReq (mkCred 1 true) ex_bind "" (mint 0 KCode) "https://c1.example/cb" 0 PkEmpty 0 HgOk BaApprove [].
+Definition ex_code_req : treq := mkTReq (mkCred 1 true) ex_bind "" (mint 0 KCode) "https://c1.example/cb" 0 PkEmpty 0 HgOk BaApprove [] AsNone.
 Example ex_crash_between :
   let h := handler ex_w 1 10%Z (OpToken GAuthorizationCode ex_code_req) in
   count_calls h ex_store_s = 3%nat /\
